@@ -31,6 +31,9 @@ func c08Menu(names []string) []vx.Exp {
 		m = append(m, vx.Cat{vx.Lit("pre-"), R(x), vx.Lit("-post")})
 		m = append(m, vx.Op{Kind: ":", Name: vx.Lit(x), RHS: vx.Lit("dflt")})
 		m = append(m, vx.Ref{Name: R(x)})
+		m = append(m, vx.Op{Kind: ":+", Name: vx.Lit(x), RHS: vx.Lit("alt")})
+		m = append(m, vx.Op{Kind: ":+", Name: vx.Lit(x), RHS: vx.Cat{vx.Lit("<"), R(x), vx.Lit(">")}})
+		m = append(m, vx.Op{Kind: ":?", Name: vx.Lit(x), RHS: vx.Lit("msg")})
 		for _, y := range names {
 			if x != y {
 				m = append(m, vx.Cat{R(x), R(y)})
@@ -153,7 +156,7 @@ func c08Exec(c c08Config, r int) core.Result {
 		env.Resolvers = []map[string]string{c08Resolvers[r].Known}
 	}
 	outcomes := map[string]vx.Outcome{}
-	anyGroup, anyErr, anyUndef, anyAbsorbed := false, false, false, false
+	anyGroup, anyErr, anyUndef, anyAbsorbed, anyAbsorbedEmpty := false, false, false, false, false
 	graphInteresting := false
 	seenRefs := map[string]int{}
 	for _, n := range c.names {
@@ -164,9 +167,12 @@ func c08Exec(c c08Config, r int) core.Result {
 		}
 		if o.Absorbed {
 			anyAbsorbed = true
+			if o.Kind == vx.Value && o.Str == "" {
+				anyAbsorbedEmpty = true // (an alternate absorbed the cycle: the text is empty, which reads as null)
+			}
 		}
 		switch o.Kind {
-		case vx.Cyclic, vx.Missing:
+		case vx.Cyclic, vx.Missing, vx.UserErr:
 			anyErr = true
 		case vx.Undefined:
 			anyUndef = true
@@ -209,7 +215,7 @@ func c08Exec(c c08Config, r int) core.Result {
 			case o.Absorbed:
 				// the value depends on where the absorbed cycle was entered; what remains
 				// claimed: a setting the model resolves must not fail
-				if o.Kind == vx.Value && err != nil {
+				if o.Kind == vx.Value && o.Str != "" && err != nil {
 					fail("String", "FALSE-ERROR(absorbed cycle)", fmt.Sprintf("String(%q): model resolves (a cycle is absorbed by a default/resolver), impl error %v", n, err))
 					return
 				}
@@ -229,6 +235,11 @@ func c08Exec(c c08Config, r int) core.Result {
 				}
 				if !reasonChainHas(err, ucfg.ErrCyclicReference) {
 					fail("String", "CYCLE-WRONG-REASON", fmt.Sprintf("String(%q): model cyclic, impl error %v", n, err))
+					return
+				}
+			case o.Kind == vx.UserErr:
+				if err == nil {
+					fail("String", "USER-ERROR-NOT-REPORTED", fmt.Sprintf("String(%q): model fails with %q, impl returned %q", n, o.Str, s))
 					return
 				}
 			case o.Kind == vx.Missing:
@@ -265,7 +276,7 @@ func c08Exec(c c08Config, r int) core.Result {
 		}
 		serr := cfg.Unpack(&st, opts...)
 		if anyAbsorbed {
-			if !anyErr && !anyUndef && !anyGroup && (uerr != nil || serr != nil) {
+			if !anyErr && !anyUndef && !anyGroup && !anyAbsorbedEmpty && (uerr != nil || serr != nil) {
 				fail("Unpack", "FALSE-ERROR(absorbed cycle)", fmt.Sprintf("model: every setting resolves (cycles absorbed by defaults/resolvers), impl errors: map %v struct %v", uerr, serr))
 				return
 			}
@@ -353,16 +364,16 @@ func init() {
 	core.Register(&core.Check{
 		ID:    "C08",
 		Level: "exploration",
-		Rule:  "every configuration over the settings {a,b[,c]} with values from a menu of reference shapes (${x}, ${x}${x}, ${x}${y}, pre-${x}-post, ${x:lit}, ${x:${y}}, ${${x}}, ${p}, ${p.q}, ${p.r}) plus a nested group p.{q,r} (literal, reference to a top-level setting, to the sibling, to the group itself), with no resolver / a resolver that knows one name / all names, is read through String, CountField, Has, Unpack into map and struct, Child+getter, FlattenedKeys and CompareConfigs inside an isolated worker; the reference evaluator decides per setting value / cyclic / missing; non-trivial = the reference graph has a cycle, a diamond or a repeated use",
+		Rule:  "every configuration over the settings {a,b[,c]} with values from a menu of reference shapes (${x}, ${x}${x}, ${x}${y}, pre-${x}-post, ${x:lit}, ${x:${y}}, ${x:+alt}, ${x:+<${x}>}, ${x:?msg}, ${${x}}, ${p}, ${p.q}, ${p.r}) plus a nested group p.{q,r} (literal, reference to a top-level setting, to the sibling, to the group itself), with no resolver / a resolver that knows one name / all names, is read through String, CountField, Has, Unpack into map and struct, Child+getter, FlattenedKeys and CompareConfigs inside an isolated worker; the reference evaluator decides per setting value / cyclic / missing / user error; a second space reads 507 configurations in which two settings refer to a list, an object, their members, each other, themselves through a path walk, or hold lists/objects of such references (diamonds) into map, struct{A,B interface{}}, struct{A,B []interface{}} and the two mixed structs, through FlattenedKeys (exact multiset of keys), CompareConfigs, CountField and indexed String, against a substitution model; non-trivial = the reference graph has a cycle, a diamond or a repeated use",
 		Assumptions: []string{
 			"2 (quick) / 3 (thorough) mutually referencing top-level settings + the group; worker death (stack overflow, hang > 20 s) is a violation of the termination clause",
 			"values that involve the text form of an object are executed for termination only",
 		},
 		Spaces: func(tier string) []*core.Space {
 			if tier == "thorough" {
-				return []*core.Space{c08Space("settings-a-b-c+group", []string{"a", "b", "c"}, false), c08Space("settings-a-b+group(full)", []string{"a", "b"}, true)}
+				return []*core.Space{c08Containers(), c08Space("settings-a-b-c+group", []string{"a", "b", "c"}, false), c08Space("settings-a-b+group(full)", []string{"a", "b"}, true)}
 			}
-			return []*core.Space{c08Space("settings-a-b+group", []string{"a", "b"}, true)}
+			return []*core.Space{c08Containers(), c08Space("settings-a-b+group", []string{"a", "b"}, true)}
 		},
 	})
 }
